@@ -102,8 +102,11 @@ def impl_run(case):
         p = dtw_cc.best_path_compact(wps, len(s1), len(s2), **ck)
         return {"path": p, "d": d}
     if site == "py.best_path_on_c":
-        d, m = dtw.warping_paths_fast(s1, s2, **kw)
-        return {"path": dtw.best_path(m), "d": d}
+        # best_path as documented: "penalty: ... paths should be expressed as the internal representation"
+        d, m = dtw.warping_paths_fast(s1, s2, keep_int_repr=True, **kw)
+        stt = dtw.DTWSettings(**kw)
+        _, result_fn, _ = __import__("dtaidistance.innerdistance", fromlist=["x"]).inner_dist_fns(stt.inner_dist)
+        return {"path": dtw.best_path(m, penalty=stt.adj_penalty), "d": result_fn(d)}
     if site == "c.customstart":
         L = craw.lib()
         st = craw.settings(s)
